@@ -113,7 +113,7 @@ func (e *engine) Gen(r *hlib.Rand, tier string) []string {
 	thr := hlib.Pick(r, []int{8, 1024, 1024})
 	// fault cases end in the directed value-log fault scenario; they need value-log values
 	// committed before it (threshold 8) and room for its 5000-byte value
-	fault := r.Chance(8)
+	fault := r.Chance(12)
 	if fault {
 		mc, ms, thr = 64, 1<<20, 8
 	}
@@ -224,7 +224,14 @@ func (e *engine) Gen(r *hlib.Rand, tier string) []string {
 		}
 	}
 	if fault {
-		ops = append(ops, fmt.Sprintf("vlogfault 5000 %02x", 0x70+r.Intn(8)), "begin 1 r")
+		switch r.Intn(3) {
+		case 0:
+			ops = append(ops, fmt.Sprintf("vlogfault 5000 %02x", 0x70+r.Intn(8)), "begin 1 r")
+		case 1:
+			ops = append(ops, fmt.Sprintf("applyfault %02x", 0x70+r.Intn(8)), "begin 1 r", "get 1 6131", "get 1 6231")
+		default:
+			ops = append(ops, fmt.Sprintf("tornread %02x", 0x70+r.Intn(8)), "discard 91", "discard 92", "begin 1 r", "get 1 7031", "get 1 7032")
+		}
 		for _, k := range keys {
 			ops = append(ops, "get 1 "+hlib.Hex(k))
 		}
@@ -455,6 +462,16 @@ func (e *engine) Exec(ops []string) (out []string) {
 				tag[i] = tb[0]
 			}
 			return vlogFault(db, txns, n2, tag)
+		case "applyfault", "tornread":
+			tb := hlib.UnHex(f[1])
+			tag := make([]byte, pthr+8)
+			for i := range tag {
+				tag[i] = tb[0]
+			}
+			if f[0] == "applyfault" {
+				return applyFault(db, txns, tag)
+			}
+			return tornRead(db, txns, tag)
 		case "close":
 			if err := db.Close(); err != nil {
 				return "other:" + strings.ReplaceAll(err.Error(), " ", "_")
@@ -586,6 +603,142 @@ func vlogFault(db *NoKV.DB, txns map[string]*NoKV.Txn, n2 int, tag []byte) strin
 	}
 	_ = unfired
 	return res
+}
+
+func waitErr(ch chan error) error {
+	select {
+	case err := <-ch:
+		return err
+	case <-time.After(20 * time.Second):
+		return errors.New("timeout")
+	}
+}
+
+// parkWorker holds db.Lock() and commits `stall` (value >= ValueThreshold): the worker writes the
+// batch to the value log and then blocks on db.Lock() before it touches the LSM.  Returns false
+// (lock released again) when the stall request never showed up in the value log.
+func parkWorker(db *NoKV.DB, stall *NoKV.Txn, c0 chan error) bool {
+	fid0, off0, _ := db.VerifVlogActive(0)
+	db.Lock()
+	stall.CommitWith(func(err error) { c0 <- err })
+	deadline := time.Now().Add(5 * time.Second)
+	for time.Now().Before(deadline) {
+		if fid, off, err := db.VerifVlogActive(0); err == nil && (fid != fid0 || off != off0) {
+			return true
+		}
+		time.Sleep(200 * time.Microsecond)
+	}
+	db.Unlock()
+	return false
+}
+
+// applyFault is the directed scenario of the `applyfault tag` line (see Driver/Mvcc.lean):
+// transactions 94 (stall), 95 and 96 are begun and written; with the worker parked on 94, the
+// queue receives 95, then a poisoned raw request (empty internal key: lsm.SetBatch refuses it),
+// then 96 — one batch.  95 is applied and answers ok; the poisoned request fails and 96, queued
+// behind it in the batch, is never applied and must report the error.
+func applyFault(db *NoKV.DB, txns map[string]*NoKV.Txn, tag []byte) string {
+	okSet := map[string]bool{}
+	mk := func(id string, k, v []byte) *NoKV.Txn {
+		t := db.NewTransaction(true)
+		txns[id] = t
+		okSet[id] = t.Set(k, v) == nil
+		return t
+	}
+	stall := mk("94", []byte("sa"), tag)
+	a := mk("95", []byte("a1"), []byte("A"))
+	b := mk("96", []byte("b1"), []byte("B"))
+	c0, c1, c2 := make(chan error, 1), make(chan error, 1), make(chan error, 1)
+	cls := func(err error) string {
+		s := errClass(err)
+		if strings.HasPrefix(s, "other:") {
+			return "iofail"
+		}
+		return s
+	}
+	if db.IsClosed() || !okSet["94"] {
+		stall.CommitWith(func(err error) { c0 <- err })
+		r0 := cls(waitErr(c0))
+		a.CommitWith(func(err error) { c1 <- err })
+		r1 := cls(waitErr(c1))
+		b.CommitWith(func(err error) { c2 <- err })
+		return r0 + "," + r1 + "," + cls(waitErr(c2))
+	}
+	if !parkWorker(db, stall, c0) {
+		return "not-parked"
+	}
+	a.CommitWith(func(err error) { c1 <- err })
+	q0 := db.VerifQueueLen()
+	poison := make(chan error, 1)
+	go func() { poison <- db.VerifQueueRawWrite(nil, []byte("x")) }()
+	for i := 0; i < 20000 && db.VerifQueueLen() == q0; i++ {
+		time.Sleep(100 * time.Microsecond)
+	}
+	queued := db.VerifQueueLen() != q0
+	b.CommitWith(func(err error) { c2 <- err })
+	db.Unlock()
+	res := cls(waitErr(c0)) + "," + cls(waitErr(c1)) + "," + cls(waitErr(c2))
+	if perr := waitErr(poison); perr == nil || !queued {
+		res += "!poison-not-refused"
+	}
+	return res
+}
+
+// tornRead is the directed scenario of the `tornread tag` line: transaction 93 writes two keys
+// and is committed with the worker parked between the value-log write and the LSM apply (it owns
+// its commit timestamp, nothing of it is visible yet).  A read-only (91) and an update (92)
+// transaction are begun meanwhile in goroutines (NewTransaction waits for the commit), each reads
+// the first key at once and the second key after the commit was released and acknowledged:
+// both reads of a reader must see the commit, or neither.
+func tornRead(db *NoKV.DB, txns map[string]*NoKV.Txn, tag []byte) string {
+	c := db.NewTransaction(true)
+	txns["93"] = c
+	ok1 := c.Set([]byte("p1"), tag) == nil
+	_ = c.Set([]byte("p2"), []byte("Q"))
+	c0 := make(chan error, 1)
+	rd := func(t *NoKV.Txn, k string) string {
+		item, err := t.Get([]byte(k))
+		if err != nil {
+			return errClass(err)
+		}
+		return "val:" + hlib.Hex(item.Entry().Value[:1])
+	}
+	type res struct {
+		t      *NoKV.Txn
+		v1, v2 string
+	}
+	applied := make(chan struct{})
+	reader := func(update bool, out chan res) {
+		t := db.NewTransaction(update)
+		v1 := rd(t, "p1")
+		<-applied
+		out <- res{t, v1, rd(t, "p2")}
+	}
+	o1, o2 := make(chan res, 1), make(chan res, 1)
+	parked := false
+	if !db.IsClosed() && ok1 {
+		parked = parkWorker(db, c, c0)
+	} else {
+		c.CommitWith(func(err error) { c0 <- err })
+	}
+	go reader(false, o1)
+	go reader(true, o2)
+	time.Sleep(40 * time.Millisecond)
+	if parked {
+		db.Unlock()
+	}
+	r0 := errClass(waitErr(c0))
+	close(applied)
+	get := func(ch chan res, id string) string {
+		select {
+		case r := <-ch:
+			txns[id] = r.t
+			return r.v1 + "," + r.v2
+		case <-time.After(20 * time.Second):
+			return "timeout"
+		}
+	}
+	return r0 + ";" + get(o1, "91") + ";" + get(o2, "92")
 }
 
 func (e *engine) Extra() map[string]any { return map[string]any{"property": *prop} }
